@@ -1,5 +1,6 @@
 import OpcuaModel.Model.Recv
 import OpcuaModel.Model.RecvRaw
+import OpcuaModel.Model.Gate
 /-
   C13 — the channel receive path survives any peer byte stream.
 
@@ -132,6 +133,64 @@ theorem C13_memory_partial (cfg : Cfg) (hact : limitActive cfg) (rcvBuf : Nat) (
   have hB := run_boundedB rcvBuf cfg hact [] s hs (by intro e he; cases he)
   exact ⟨nchunks_le _ _ (fun e he => (hB e he).1), held_le _ _ _ hB⟩
 
+/-- **Memory, exact constant (raw frames, unsecured channel).**  Whatever frames
+    of at most `rcvBuf` bytes arrive, in any state reached from an empty table:
+    every retained chunk carries at most `rcvBuf − 24` payload bytes (header 12,
+    token id 4, sequence header 8), so the retained payload is at most
+    `(rcvBuf − 24) · MaxChunkCount` bytes per active request id. -/
+theorem C13_memory_exact (cfg : RawCfg) (hact : limitActive cfg.limits) (hsec : cfg.secure = false)
+    (st : RawSt) (hst : st.bufs = []) (fs : List Frame) (hlen : ∀ f ∈ fs, f.raw.length ≤ cfg.rcvBuf) :
+    (runRawFinal cfg st fs).bufs.held ≤
+      (cfg.rcvBuf - 24) * cfg.limits.maxChunkCount * (runRawFinal cfg st fs).bufs.entries := by
+  apply held_le
+  apply runRaw_boundedB cfg hact hsec st fs hlen
+  rw [hst]; intro e he; cases he
+
+/-- the constant is attained: receive buffer 26, limit 2 — two intermediate
+    chunks of request 5 with 2 payload bytes each: 4 = (26 − 24) · 2 · 1 bytes held -/
+theorem C13_memory_exact_tight :
+    (runRawFinal { rcvBuf := 26, limits := { maxChunkCount := 2, maxMessageSize := 100 }, secure := false }
+      { bufs := [], opening := false, chans := [11] }
+      [⟨[77,83,71,67, 26,0,0,0, 11,0,0,0, 22,0,0,0, 1,0,0,0, 5,0,0,0, 65,66], none, .ok⟩,
+       ⟨[77,83,71,67, 26,0,0,0, 11,0,0,0, 22,0,0,0, 2,0,0,0, 5,0,0,0, 67,68], none, .ok⟩]).bufs.held = 4 := by decide
+
+/-- **Release.**  A final chunk, an abort chunk and a chunk that exceeds the
+    chunk limit all release what was retained for their request id: afterwards
+    nothing is buffered for it (in any state, for any limits) -/
+theorem C13_final_or_abort_releases (cfg : Cfg) (b : Bufs) (c : Chunk) (h : c.ct ≠ ctC) :
+    (step cfg b c).1.get c.req = [] ∧ chunksBytes ((step cfg b c).1.get c.req) = 0 := by
+  have hs := step_get_same cfg b c
+  have h1 : (step1 cfg (b.get c.req) c).1 = [] := by
+    unfold step1
+    by_cases hA : c.ct = ctA
+    · simp [hA]
+    · simp only [if_neg hA, if_neg h]
+      split <;> rfl
+  have : (step cfg b c).1.get c.req = [] := by
+    have := congrArg Prod.fst hs
+    simpa [h1] using this
+  exact ⟨this, by rw [this]; rfl⟩
+
+theorem C13_too_many_releases (cfg : Cfg) (b : Bufs) (c : Chunk) (n : Nat)
+    (h : (step cfg b c).2 = .tooMany c.req n) : (step cfg b c).1.get c.req = [] := by
+  have hs := step_get_same cfg b c
+  have h2 : (step1 cfg (b.get c.req) c).2 = .tooMany c.req n := by
+    rw [← h]; exact (congrArg Prod.snd hs).symm
+  have h1 : (step1 cfg (b.get c.req) c).1 = [] := by
+    unfold step1 at h2 ⊢
+    by_cases hA : c.ct = ctA
+    · simp [hA]
+    · by_cases hC : c.ct = ctC
+      · simp only [if_neg hA, if_pos hC] at h2 ⊢
+        by_cases hn : exceeds cfg.chunk0 (b.get c.req ++ [c]).length cfg.maxChunkCount = true
+        · simp only [if_pos hn]
+        · simp only [if_neg hn] at h2
+          cases h2
+      · simp only [if_neg hA, if_neg hC]
+        split <;> rfl
+  have := congrArg Prod.fst hs
+  simpa [h1] using this
+
 /-- FINDING C13.chunks-unbounded-ids: the bound does not hold independently of
     the number of request ids — for EVERY `n`, `n` intermediate chunks with
     `n` different request ids (no final chunk ever) are all retained, one map
@@ -169,6 +228,41 @@ theorem C13_opn_clobbers_active_instance (cfg : RawCfg) (st : RawSt) (f : Frame)
   have e2 : ¬ (tMSG = tOPN) := by decide
   have e3 : ¬ (tMSG = tCLO) := by decide
   simp [rawStep, verified, h1, h3, h4, hmsg, e1, e2, e3, hchan, hsec, ho, hclob]
+
+/-! ### the receive gate of the client dispatcher (hostile OpenSecureChannelResponse) -/
+
+/-- Observation (a): a response whose body is an
+    OpenSecureChannelResponse locks the receive gate whenever its request id has
+    a handler — the dispatcher never checks that an `open()` is in flight for it.
+    A server can therefore answer ANY ordinary request that way. -/
+theorem C13_gate_locked_by_any_opn_response (st : Gate.St) (r : Gate.Resp) (rest : List Gate.Resp)
+    (hopen : st.locked = false) (hq : st.queue = r :: rest) (hh : r.req ∈ st.handlers) (hopn : r.isOPN = true) :
+    (Gate.step st .dispatch).locked = true := by
+  simp [Gate.step, hopen, hq, hh, hopn]
+
+/-- (b): from then on, whatever arrives and however many requests are sent,
+    nothing is delivered to any handler and nothing is read from the socket
+    until some `open()` returns or the channel is closed -/
+theorem C13_gate_wedged (st : Gate.St) (evs : List Gate.Ev) (hl : st.locked = true)
+    (hq : ∀ e ∈ evs, e.quiet = true) :
+    (Gate.run st evs).delivered = st.delivered ∧ st.queue.length ≤ (Gate.run st evs).queue.length :=
+  (Gate.wedged st evs hl hq).2
+
+/-- … but not for ever: the next `open()` that returns — the scheduled renewal
+    does, at the latest by its request timeout — reopens the gate and the
+    dispatcher goes on with the queued responses -/
+theorem C13_gate_reopens (st : Gate.St) (r : Gate.Resp) (rest : List Gate.Resp)
+    (hq : st.queue = r :: rest) (hh : r.req ∈ st.handlers) :
+    (Gate.run st [.openReturns, .dispatch]).delivered = r.req :: st.delivered := by
+  simp [Gate.run, Gate.step, hq, hh]
+
+/-- the scenario of the runner: request 1 answered with an
+    OpenSecureChannelResponse, request 2 answered properly — its response is
+    delivered only after `open()` has returned -/
+theorem C13_gate_witness :
+    (Gate.run {} [.register 1, .arrive ⟨1, true⟩, .dispatch, .register 2, .arrive ⟨2, false⟩, .dispatch, .dispatch]).delivered = [1] ∧
+    (Gate.run {} [.register 1, .arrive ⟨1, true⟩, .dispatch, .register 2, .arrive ⟨2, false⟩, .dispatch, .openReturns,
+                  .dispatch]).delivered = [2, 1] := by decide
 
 /-! ### non-vacuity: raw frames on an open None-mode channel (channel id 11) -/
 
